@@ -393,7 +393,7 @@ def seq_check(prop, tier, seed, cfg):
     workers = tcfg.get("workers", NCPU)
     base = (seed * 1000003 + int(hashlib.sha256(prop.encode()).hexdigest()[:6], 16)) % (2 ** 31)
     jobs = []
-    plan = cfg.get("profiles") or [(cfg["profile"], cfg.get("kinds"), mode, 1.0)]
+    plan = (cfg.get("thorough_profiles") if tier == "thorough" else None) or cfg.get("profiles") or [(cfg["profile"], cfg.get("kinds"), mode, 1.0)]
     for w in range(workers):
         profile, kinds, wmode, scale = plan[w % len(plan)]
         jobs.append((w, (profile, wmode, scale), kinds, 0))
